@@ -116,7 +116,7 @@ Definition verdict (c : case) : Z * Z :=
   | CWOFF t tbn tbd pj bs h f =>
       wverdict hdroff_eqb t (woff_step nil_render t pj bs) h f (C05_woff_check t tbn tbd pj bs h f)
   | CB sp cs h =>
-      let model := snd (brun nil_render nil_render nil_render true sp cs (binit cs) (map fst h)) in
+      let model := snd (crun nil_render nil_render nil_render true sp cs (binit cs) (map fst h)) in
       let d := first_diff bobs_eqb 0 (map snd h) model in
       (verdict_code (d =? -1) (C05_bench_check sp cs h), d)
   end.
